@@ -317,19 +317,17 @@ def oracle_conc(line, obs):
                 if K["copyfail"] and p == 99:
                     continue
                 hit = [(k, pay) for k, pay in final if k.lower() == name.lower()]
-                if not hit or (hit[0][1] == p and (hit[0][0] == name or not K["exact"])):
-                    return ("identical-reregistration", "writer %d: %s failed although the table holds %s" % (t, op, hit))
+                if not hit:
+                    return ("unjustified-failure", "writer %d: %s failed but no such key was ever registered" % (t, op))
+                if hit[0][1] == p and (hit[0][0] == name or not K["exact"]):
+                    return ("identical-reregistration", "writer %d: %s failed although the table holds the identical %s" % (t, op, hit))
             else:
                 return ("output-shape", "writer %d: result %s" % (t, r))
     # every key whose registration can succeed ends up registered exactly once
-    firsts = set()
-    for prog in progs:
-        for op in prog:
-            _, name, p = op.split(":")
-            if not (K["copyfail"] and int(p) == 99):
-                firsts.add(name.lower())
     if set(lows) - attempted:
         return ("uniqueness", "final table holds keys nobody registered: %s" % (set(lows) - attempted))
+    if attempted - set(lows):
+        return ("density", "keys were registered but are absent from the final table: %s" % sorted(attempted - set(lows)))
     for t, r in d["R"].items():
         for cnt, what in (("bad", "incomplete-object"), ("moved", "stability"), ("nonmono", "stability")):
             if int(r.get(cnt, "0")) != 0:
@@ -495,9 +493,13 @@ def run(ctx):
         ctx.sample({"op": lines[i][:400], "model_and_impl_output": outs[i][:400]})
         ctx.sample({"op": lines[700][:300], "model_and_impl_output": outs[700][:300]})
     if thorough:
-        tsan = ctx.harness("harness/cc/c40_table.cc", "c40_table_tsan", extra=("-fsanitize=thread", "-g"))
-        # supporting evidence only: never part of the verdict
-        ctx.obligations = [o for o in ctx.obligations if "c40_table.cc [scalar]" not in o["name"] or o["ok"]]
+        # supporting evidence only: never part of the verdict (a failing TSan build is just recorded)
+        try:
+            tsan = common.build.build_harness(os.path.join(common.VERIF, "harness/cc/c40_table.cc"), "c40_table_tsan",
+                                              "scalar", ("-fsanitize=thread", "-g"))
+        except RuntimeError as e:
+            tsan = None
+            ctx.extra["tsan_supporting"] = {"note": "TSan variant did not build: " + str(e)[-300:]}
         if tsan:
             tl = gen_conc(ctx, 12, kinds="t")
             r = common.sh([tsan], inp="".join(l + "\n" for l in tl), timeout=1200, env={"TSAN_OPTIONS": "exitcode=0"})
